@@ -188,7 +188,7 @@ def _chunk_guard(item):
 
 
 def run_under_scheduler(fn, choices, focus_targets=(), focus_files=(), max_steps=20000, signals=0, signal_handler=None,
-                        horizon=1e9, line_watch=()):
+                        horizon=1e9, line_watch=(), op_watch=()):
   """Runs fn() as logical thread 0 under a scheduler replaying `choices`.
 
   Returns (sched, value_or_exception).
@@ -197,6 +197,7 @@ def run_under_scheduler(fn, choices, focus_targets=(), focus_files=(), max_steps
   sched = runtime.Scheduler(chooser, max_steps=max_steps, focus_files=focus_files, signals=signals,
                             signal_handler=signal_handler, horizon=horizon)
   sched.line_watch = tuple(line_watch)
+  sched.op_watch = tuple(op_watch)
   value = None
   with runtime.Installed(sched, focus_targets):
     try:
